@@ -675,6 +675,37 @@ func verifStageMatrix2(r *gen.Rand) []vsOp {
 		recv(f, 0, len(f.content))
 	}
 	names := [][2]string{{"site/data.bin", "site/next.bin"}, {"a", "b"}, {"g.1", "g.2"}, {"d/e/x", "d/y"}}[r.Intn(4)]
+	if r.Chance(1, 4) {
+		// (d) the staged partial is tampered with between two parts: grown by a tail, cut short,
+		// zeroed - then the remaining parts arrive and the file is complete by the record
+		F := mk(names[0], "", 4+r.Intn(12))
+		h := len(F.content) / 2
+		prep(F)
+		first, second := [2]int{0, h}, [2]int{h, len(F.content)}
+		if r.Chance(1, 2) {
+			first, second = second, first
+		}
+		recv(F, first[0], first[1])
+		var junk []byte
+		switch r.Intn(4) {
+		case 0:
+			junk = append(append([]byte{}, F.content...), []byte("-tail")...)
+		case 1:
+			junk = append(make([]byte, len(F.content)), 7, 7, 7)
+		case 2:
+			junk = append([]byte{}, F.content[:h]...)
+		case 3:
+			junk = make([]byte, len(F.content))
+		}
+		ops = append(ops, vsOp{kind: "TM", name: F.name, num: 0, data: junk})
+		recv(F, second[0], second[1])
+		ops = append(ops, vsOp{kind: "ST"}, vsOp{kind: "SQ", name: F.name, num: -3600})
+		if r.Chance(1, 2) {
+			whole(F) // the sender's answer to "failed": the file again
+			ops = append(ops, vsOp{kind: "ST"}, vsOp{kind: "SQ", name: F.name, num: -3600})
+		}
+		return ops
+	}
 	if r.Chance(1, 3) {
 		// (c) two days pass after delivery, the cache ages out, then a late retransmission arrives:
 		// the delivery is known from the log only
@@ -774,7 +805,7 @@ func verifStageMatrix2(r *gen.Rand) []vsOp {
 
 func verifStageGen(r *gen.Rand) []vsOp {
 	if r.Chance(1, 4) {
-		if r.Chance(1, 3) {
+		if r.Chance(2, 5) {
 			return verifStageMatrix2(r)
 		}
 		return verifStageMatrix(r)
